@@ -176,7 +176,7 @@ func (c *Ctx) rulesC10() {
 		prod, ver := false, false
 		for _, s := range sites {
 			fk := funcKey(topFunc(s.Fn))
-			if fk == pr+":Client.clockUpdate" {
+			if cu := c.fnOpt(pr + ":Client.clockUpdate"); fk == pr+":Client.clockUpdate" || (cu != nil && c.hostedBy(topFunc(s.Fn), cu)) {
 				ver = true
 			}
 			if recv := topFunc(s.Fn).Signature.Recv(); recv != nil {
@@ -275,11 +275,41 @@ func (c *Ctx) rulesC10() {
 				}
 				// sumSide = Checksum(...) whose args derive from clockFromUpdate's results
 				call, ok := sumSide.(*ssa.Call)
-				if !ok || call.Call.StaticCallee() != cs || len(cfu) != 1 {
+				if !ok || len(cfu) != 1 {
 					continue
 				}
+				cargs := call.Call.Args
+				if callee := call.Call.StaticCallee(); callee != cs {
+					// a private helper of clockUpdate whose every result is
+					// Checksum(values derived from its own parameters)
+					if callee == nil || callee == f || !c.hostedBy(callee, f) || len(callee.Blocks) == 0 {
+						continue
+					}
+					wraps := len(returnsOf(callee)) > 0
+					for _, r := range returnsOf(callee) {
+						in, ok := retVals(r)[0].(*ssa.Call)
+						if !ok || in.Call.StaticCallee() != cs {
+							wraps = false
+							continue
+						}
+						for _, ar := range in.Call.Args {
+							if !derives(ar, func(x ssa.Value) bool {
+								p, ok := x.(*ssa.Parameter)
+								return ok && !(callee.Signature.Recv() != nil && p == callee.Params[0])
+							}) {
+								wraps = false
+							}
+						}
+					}
+					if !wraps {
+						continue
+					}
+					if callee.Signature.Recv() != nil && len(cargs) > 0 {
+						cargs = cargs[1:]
+					}
+				}
 				all := true
-				for _, ar := range call.Call.Args {
+				for _, ar := range cargs {
 					if !derives(ar, func(x ssa.Value) bool { return x == cfu[0].Value() }) {
 						all = false
 					}
